@@ -170,7 +170,9 @@ fn gen_step(r: &mut Rng, which: Which) -> Step {
                 s.ratchet = Some(*r.pick(&["warn", "auto", "strict"]));
             }
             // "whatever other flags are given": fail-fast too
-            s.fail_fast = s.update.is_none() && r.chance(1, 4);
+            // fail-fast together with an update as well: the rewritten baseline must still hold
+            // every violation of the project state, not only those met before the stop
+            s.fail_fast = r.chance(1, 4);
         }
         Which::C10 => {
             s.given = r.chance(9, 10);
@@ -404,6 +406,14 @@ fn history(sink: &mut Sink, r: &mut Rng, which: Which, scratch: &str, bin: &str,
                         let wanted = match mode { "all" | "new" => true, "content" => x.kind == 'c', _ => x.kind != 'c' };
                         if wanted && !am.contains_key(&x.path) {
                             pred = Some(format!("--update-baseline={mode} did not record the violation at {}", x.path));
+                        }
+                    }
+                    // an update describes the project state, however early a fail-fast run would stop
+                    if matches!(mode, "all" | "new") && step.files.is_empty() && step.root.is_none() {
+                        for x in candidates.iter().filter(|x| x.status == "failed" && x.kind != 'o') {
+                            if !am.contains_key(&x.path) && pred.is_none() {
+                                pred = Some(format!("--update-baseline={mode}{}: the violation at {} is missing from the rewritten baseline (the run stopped before it)", if step.fail_fast { " with fail-fast" } else { "" }, x.path));
+                            }
                         }
                     }
                     // `new` never drops an existing entry of the file it rewrites — also when that file is
